@@ -223,6 +223,8 @@ def main(argv=None):
     ap.add_argument("--scale", type=float, default=float(os.environ.get("VERIF_SCALE", "1")))
     ap.add_argument("--max-wall", type=float, default=None)
     ap.add_argument("--no-evidence", action="store_true")
+    ap.add_argument("--also-known", default="", help="development only: comma-separated extra signatures to "
+                    "treat as known findings so that the search continues past them")
     args = ap.parse_args(argv)
     _ARGS = args
     prop_id = args.prop.upper()
@@ -237,6 +239,10 @@ def main(argv=None):
         return 2
     known_entries = load_known(prop_id)
     _KNOWN = {e["signature"] for e in known_entries if e.get("status") == "known"}
+    if args.also_known:
+        _KNOWN |= set(args.also_known.split(","))
+        print("DEVELOPMENT RUN: extra signatures treated as known:", args.also_known)
+        args.no_evidence = True
     _STOP = mp.Event()
 
     # ---- single replay -------------------------------------------------------------
